@@ -132,5 +132,26 @@ theorem validate_delegated_amount_is_the_source (dl : Delegation) (amt : Int) (v
     Generated.ValidateDelegatedAmount dl amt v a = validateDelegatedAmount dl.shares amt v a :=
   ArithTie.validateDelegatedAmount_is_source dl amt v a
 
+/-! ## how far the reported values are from the exact quotients -/
+
+/-- one conversion (`ConvertNewShareToDecToken`, two roundings) against the exact s·tt/ts, cross-multiplied on the raw
+    10¹⁸-scaled integers: |r·10³⁶·ts − s·tt·10³⁶| ≤ (H+1)·ts·tt + H·P·ts, i.e. |r − s·tt/ts| ≤ (½·10⁻¹⁸ + 10⁻³⁶)·tt + ½·10⁻¹⁸
+    — "the relative error of 18-digit fixed-point arithmetic" of the property, as a theorem (AllianceProofs/ValueError) -/
+theorem conversion_error_bound (tt ts s : Dec) (htt : 0 ≤ tt) (hts : 0 < ts) (hs : 0 ≤ s) :
+    let r := convertNewShareToDecToken tt ts s
+    r * (P * P * ts) - s * tt * (P * P) ≤ (H + 1) * ts * tt + H * P * ts ∧
+    -(r * (P * P * ts) - s * tt * (P * P)) ≤ (H + 1) * ts * tt + H * P * ts := convert_error_bound tt ts s htt hts hs
+
+/-- tokens → shares: |S·10¹⁸·tt − ts·n·10³⁶| ≤ (H+1)·tt·n -/
+theorem shares_for_tokens_error_bound (tt ts : Dec) (n : Int) (S : Dec) (htt : 0 < tt) (hts : 0 < ts) (hn : 0 ≤ n)
+    (h : convertNewTokenToShares tt ts n = .ok S) :
+    S * (P * tt) - ts * n * (P * P) ≤ (H + 1) * (tt * n) ∧ -(S * (P * tt) - ts * n * (P * P)) ≤ (H + 1) * (tt * n) :=
+  shares_from_tokens_error tt ts n S htt hts hn h
+
+/-- the reported balance is the floor of (value + 0.01) -/
+theorem reported_balance_is_floor (D : Dec) (hD : 0 ≤ D) :
+    truncateInt (D + rounder) * P ≤ D + rounder ∧ D + rounder < (truncateInt (D + rounder) + 1) * P :=
+  reported_value_floor D hD
+
 end C04
 end Alliance
